@@ -65,6 +65,12 @@ class ND:
         return tuple(d[k] for k in range(len(d)))
     @property
     def ndim(self): return len(self.shape)
+    @property
+    def size(self):
+        n = 1
+        for d in self.shape:
+            n = n * d          # int or SInt
+        return n
 
     def __iter__(self):
         """rows along the first axis (Python would otherwise probe __getitem__ with 0, 1, 2, ... forever)"""
